@@ -127,7 +127,7 @@ pub fn run(args: &Args) -> Option<Report> {
         max_dev,
         max_depth: cfg.depth,
         shard: args.shard,
-        shard_depth: 2,
+        shard_depth: 3,
         wall_cap_s: args.opt_u("wall", if args.tier == "quick" { 35 } else { 1500 }) as f64,
         exec_cap: args.opt_u("execs", u64::MAX / 2),
         prune: cfg.prune,
